@@ -257,8 +257,13 @@ def guarantees(ctx, f):
     errs = {bi for bi in range(b.n)}
 
     def named(op, name):
+        """the value was decoded from the self.<name> column decoder (field name of BundleChangeIterInner, not a local's name)"""
         pv = b.provenance(op, through_calls=True)
-        return name in {b.local_name(l) for l in pv.locals}
+        for l, pr in pv.places:
+            o = b.origin(l, pr)
+            if o[0] == 1 and ("." + name) in o[1]:
+                return True
+        return False
     g1 = g2 = False
     for sb, sw in b.switches():
         src = b.bool_operand_source(sw["op"])
